@@ -601,19 +601,23 @@ def run(ctx, verdict, replay=None, model_ok=True):
             u.setdefault("foreign_defs", {})[kind] = sorted(foreign_names)
             seen = set()
             for path, facet, cause, detail in diffs:
-                # a local object replaced by a foreign one of the same bare name
-                if facet == "presence" and cause in ("field-missing", "property-of-another-object") and u["stream"] == "B":
-                    other = [s["pkg"] for s in u["facts"] if s["pkg"] != u["pkg"] and any(o["name"] == path[0] for o in s["objects"])]
-                    if other:
-                        cause = "definition-replaced-by-foreign-object-of-the-same-name"
+                # a local object replaced by a foreign one of the same bare name: everything below it differs
+                other = [s["pkg"] for s in u["facts"] if s["pkg"] != u["pkg"] and any(o["name"] == path[0] for o in s["objects"])]
+                if other and u["stream"] == "B" and cause != "object-missing":
+                    facet, cause = "presence", "definition-replaced-by-foreign-object-of-the-same-name"
                 if (facet, cause) in seen:
                     continue
                 seen.add((facet, cause))
                 count("%s:%s" % (facet, cause))
                 report({"kind": "not-carried-over" if facet != "presence" else "object-or-field-not-present", "format": kind,
                         "facet": facet, "cause": cause}, u, {"path": list(path), "detail": detail})
+            # OpenAPI 3.0: a Reference Object has no siblings
+            if kind == "openapi":
+                sib = ref_siblings(defs)
+                if sib:
+                    u["oa_ref_siblings"] = sib
     rp = gencode_out.reparse(ctx, rp_items)
-    loaders = {}
+    loaders, roundtrip_hist = {}, {}
     for (u, kind), r in zip(rp_owner, rp):
         if r is None:
             count("reparse-fatal")
@@ -622,26 +626,31 @@ def run(ctx, verdict, replay=None, model_ok=True):
         u.setdefault("reparse", {})[kind] = r
         lk = "%s:loader=%s" % (kind, "ok" if r.get("loader") == "ok" else "error")
         loaders[lk] = loaders.get(lk, 0) + 1
+        dangling_input = not u["resolves"]
         if r.get("loader") and r["loader"] != "ok":
-            count("loader-rejects")
-            report({"kind": "independent-loader-rejects-emitted-document", "format": kind, "cause": loader_cause(r["loader"])}, u,
-                   {"observed": r["loader"]})
+            cause = loader_cause(r["loader"])
+            if not (dangling_input and cause in ("unresolved-ref", "meta-schema")):
+                count("loader-rejects")
+                report({"kind": "independent-loader-rejects-emitted-document", "format": kind, "cause": cause}, u, {"observed": r["loader"]})
         if kind == "openapi" and r.get("validate") and r["validate"] != "ok":
-            count("openapi-validate-rejects")
-            report({"kind": "independent-loader-rejects-emitted-document", "format": kind, "cause": loader_cause(r["validate"])}, u,
-                   {"observed": r["validate"]})
+            cause = loader_cause(r["validate"])
+            if cause == "openapi-extra-keyword" and u.get("oa_ref_siblings"):
+                cause = "openapi-$ref-with-sibling-keywords"
+            if not (dangling_input and cause in ("unresolved-ref", "meta-schema")):
+                count("openapi-validate-rejects")
+                report({"kind": "independent-loader-rejects-emitted-document", "format": kind, "cause": cause}, u, {"observed": r["validate"]})
         if r["status"] != "OK":
             cause = "panic:" + loader_cause(r.get("message", "")) if r["status"] == "PANIC" else loader_cause(r.get("message", ""))
-            if r.get("loader") == "ok" and (kind != "openapi" or r.get("validate") == "ok") or r["status"] == "PANIC":
-                count("cog-parser-rejects")
-                report({"kind": "cog-parser-rejects-emitted-document", "format": kind, "cause": cause}, u, {"observed": r.get("message")})
+            # cog's parser refusing what the independent loader already refused is the same failure
+            if (r.get("loader") == "ok" and (kind != "openapi" or r.get("validate") == "ok")) or r["status"] == "PANIC":
+                if not (dangling_input and cause in ("unresolved-ref", "meta-schema")):
+                    count("cog-parser-rejects")
+                    report({"kind": "cog-parser-rejects-emitted-document", "format": kind, "cause": cause}, u, {"observed": r.get("message")})
             continue
-        # required-ness, constraints, enum values, defaults as cog's own parser reads them back (JSON Schema only:
-        # the OpenAPI front-end is handed the same definitions)
+        # informational: required-ness, constraints, enum values, defaults as cog's own parser reads them back
         if kind == "jsonschema":
             for facet, cause, path in roundtrip_diffs(u["facts"], u["pkg"], json.loads(json.dumps(r.get("facts") or []))):
-                count("roundtrip:%s:%s" % (facet, cause))
-                report({"kind": "reparsed-schema-differs", "format": kind, "facet": facet, "cause": cause}, u, {"path": path})
+                roundtrip_hist["%s:%s" % (facet, cause)] = roundtrip_hist.get("%s:%s" % (facet, cause), 0) + 1
 
     # ---- python check_schema + encoded values against the emitted JSON Schema
     pv_items, pv_owner = [], []
@@ -704,7 +713,8 @@ def run(ctx, verdict, replay=None, model_ok=True):
             elif js_ok.get(e, False):
                 # rejected by the OpenAPI document although the JSON Schema document accepts it
                 count("openapi-only-rejection")
-                report({"kind": "encoded-value-rejected-by-emitted-schema", "format": "openapi", "cause": "openapi-only"}, u,
+                report({"kind": "encoded-value-rejected-by-emitted-schema", "format": "openapi",
+                        "cause": "openapi-only:null-inside-untyped-value" if "null" in e else "openapi-only:other"}, u,
                        {"source_document": j["docs"][d_idx], "encoded": e,
                         "job": dict(u["job"], type=j["type"], docs=[j["docs"][d_idx]])})
     ctx.log("encoded values: %d validated against the emitted OpenAPI document (kin-openapi), %d accepted" % (n_oa, n_oa_ok))
@@ -803,6 +813,8 @@ def run(ctx, verdict, replay=None, model_ok=True):
         "rejection_causes": rej_hist,
         "property_failures_counted": counts,
         "loader_outcomes": loaders,
+        "reparsed_by_cog_differences_informational": roundtrip_hist,
+        "decoded_values_failing_their_own_Validate_skipped": n_invalid_value,
         "model_cases": len(cases),
         "model_unmodelled_cases": len(ev["UNM"]),
         "model_validator_gave_up_cases": len(ev["UNM_VALID"]),
@@ -812,6 +824,29 @@ def run(ctx, verdict, replay=None, model_ok=True):
     }
     return {"coverage": cov, "unexplained_mismatches": unexplained[:20],
             "search_note": "construct-grammar schemas in three formats x re-encoded accepted documents, and directly constructed multi-package IRs; every emitted document through meta-schema, loaders, cog's parsers, $ref / presence / carried-over walks"}
+
+
+def ref_siblings(defs):
+    """`$ref` members that have sibling keywords, anywhere in schema position"""
+    out = []
+
+    def walk(sc, path):
+        if not isinstance(sc, dict):
+            return
+        if "$ref" in sc and len(sc) > 1:
+            out.append((list(path), sorted(k for k in sc if k != "$ref")))
+        for k in ("items", "additionalProperties"):
+            if isinstance(sc.get(k), dict):
+                walk(sc[k], path + (k,))
+        for k in ("anyOf", "oneOf", "allOf"):
+            for i, b in enumerate(sc.get(k) or []):
+                walk(b, path + (k, i))
+        if isinstance(sc.get("properties"), dict):
+            for n, p_ in sc["properties"].items():
+                walk(p_, path + (n,))
+    for n, d in defs.items():
+        walk(d, (n,))
+    return out
 
 
 def _ir_kinds(x, out):
